@@ -41,10 +41,10 @@ pub fn check(t: &Trace<'_>, out: &mut CaseOut) -> bool {
             out.count("allocations_with_ids_in_use", 1);
         }
         if let Some(o) = inuse.iter().find(|o| o.pid == msg.pid) {
-            let wrapped = msg.op > o.op + 1000;
+            out.key(format!("collision/{}-vs-{}", msg.kind, o.kind));
             out.violations.push(viol(
                 "C07",
-                if wrapped { "C07/collision/after-wrap".to_string() } else { format!("C07/collision/{}-vs-{}", msg.kind, o.kind) },
+                "C07/collision/id-reused-while-in-flight",
                 format!("op#{} ({}) was given identifier {} while op#{} ({}) with the same identifier still awaits its final acknowledgement", msg.op, msg.kind, msg.pid, o.op, o.kind),
             ));
         }
